@@ -230,20 +230,87 @@ def rule_narrow(facts):
     return r
 
 
-def rule_qsign(facts):
+QSCOPE = ("::functions::cast::", "::scalar::builtin::numeric::")
+_DIVRE = re.compile(r"(checked_div|div_checked|Div(<[^>]*>)?>::div|ops::Div::div|::div_euclid)$")
+
+
+def _quotient_params(facts, fns):
+    """{function id: {parameter index (1-based MIR arg)}} of parameters that receive a signed quotient: the payload parameter of a
+    closure handed to Option/Result::and_then/map/map_or… on the result of a division, and parameters of in-scope callees (trait methods:
+    every impl) whose argument is a quotient or such a parameter. Three rounds."""
+    tainted = {}
+    impls = {}
+    for fid in fns:
+        m = re.match(r"<.+ as (.+)>::(\w+)$", fid)
+        if m:
+            impls.setdefault((m.group(1).split("<")[0], m.group(2)), []).append(fid)
+
+    def is_q(fn, fid, op, at):
+        if op[0] not in ("c", "m"):
+            return False
+        o = fn.origin(op, at=at, through_calls=("::unwrap", "::branch", "::expect"))
+        if o[0] == "rv" and o[1][0] == "bin" and o[1][1].startswith("Div") and str(o[1][4]).startswith("i"):
+            return True
+        if o[0] == "call" and _DIVRE.search(o[1].name):
+            return True
+        if o[0] == "arg" and o[1] in tainted.get(fid, ()) and not [p_ for p_ in (o[2] if len(o) > 2 else []) if p_ != "*"]:
+            return True
+        return False
+    for _round in range(3):
+        changed = False
+        for fid, fn in fns.items():
+            for c in fn.calls():
+                last = c.name.rsplit("::", 1)[-1]
+                if last in ("and_then", "map", "map_or", "map_or_else", "is_some_and", "filter") and ("Option" in c.name or "Result" in c.name) and len(c.args) >= 2:
+                    recv = fn.origin(c.args[0], at=c.bb)
+                    if recv[0] == "call" and _DIVRE.search(recv[1].name) or is_q(fn, fid, c.args[0], c.bb):
+                        for a in c.args[1:]:
+                            o = fn.origin(a, at=c.bb) if a[0] in ("c", "m") else None
+                            if o and o[0] == "rv" and o[1][0] == "agg" and o[1][1][0] == "closure":
+                                k = o[1][1][1]
+                                if 2 not in tainted.setdefault(k, set()):
+                                    tainted[k].add(2)
+                                    changed = True
+                    continue
+                targets = []
+                if c.name in fns:
+                    targets = [c.name]
+                else:
+                    tr = (c.callee.get("trait") or "").split("<")[0]
+                    if tr:
+                        targets = impls.get((tr, last), [])
+                if not targets:
+                    continue
+                for idx, a in enumerate(c.args):
+                    if is_q(fn, fid, a, c.bb):
+                        for t in targets:
+                            if (idx + 1) not in tainted.setdefault(t, set()):
+                                tainted[t].add(idx + 1)
+                                changed = True
+        if not changed:
+            break
+    return tainted
+
+
+def rule_qsign(facts, rule="C13-QSIGN"):
     """Integer division truncates toward zero, so a quotient of 0 has lost the dividend's sign and `quotient > 0` is false for every negative
     dividend. An ordering test of a *quotient* against zero is therefore not a test of the value's sign: used to pick the rounding
     direction it rounds -0.6 to +1, used as a presence test in a formatter it drops negative components. Cast kernels, formatters and
-    round() must test the dividend (or `!= 0`), never the quotient - unless the dividend is provably non-negative."""
+    the numeric functions must test the dividend or the remainder (or `!= 0`), never the quotient - unless the dividend is provably
+    non-negative. Quotients are followed into closure payloads (`checked_div(..).and_then(|q| ..)`) and into the parameters of
+    in-scope callees (trait methods: every impl)."""
     from .mir import int_range
-    r = RuleResult("C13-QSIGN", "cast kernels / formatters / round never order-compare a signed quotient with zero", floor=0)
-    SCOPE = ("::functions::cast::", "::numeric::round", "::numeric::trunc", "::numeric::ceil", "::numeric::floor")
+    r = RuleResult(rule, "cast kernels / formatters / numeric functions never order-compare a signed quotient with zero", floor=0)
     nfn = 0
-    for rec in facts.all_fns(["glaredb_core"], contains=SCOPE):
-        if not any(m in rec["id"] for m in SCOPE) or "::tests::" in rec["id"]:
+    fns = {}
+    for rec in facts.all_fns(["glaredb_core"], contains=QSCOPE):
+        if not any(m in rec["id"] for m in QSCOPE) or "::tests::" in rec["id"]:
             continue
+        fns[rec["id"]] = Fn(rec)
+    tainted = _quotient_params(facts, fns)
+    for fid, fn in fns.items():
+        rec = fn.rec
         nfn += 1
-        fn = Fn(rec)
 
         def quotient(op, at):
             if op[0] not in ("c", "m"):
@@ -254,8 +321,10 @@ def rule_qsign(facts):
                 if lo is not None and lo[0] >= 0:
                     return None            # non-negative dividend
                 return "`/`"
-            if o[0] == "call" and re.search(r"(checked_div|Div(<[^>]*>)?>::div|ops::Div::div|::div_euclid)$", o[1].name):
+            if o[0] == "call" and _DIVRE.search(o[1].name):
                 return o[1].name.rsplit("::", 1)[-1]
+            if o[0] == "arg" and o[1] in tainted.get(fid, ()) and not [p_ for p_ in (o[2] if len(o) > 2 else []) if p_ != "*"]:
+                return f"a division at a caller (parameter {o[1]})"
             return None
 
         def is_zero(op, at):
@@ -276,15 +345,19 @@ def rule_qsign(facts):
                     q = quotient(x, c.bb)
                     if q and is_zero(y, c.bb):
                         sites.append((c.line, q))
+            elif c.name.rsplit("::", 1)[-1] in ("is_negative", "is_positive", "signum") and c.args:
+                q = quotient(c.args[0], c.bb)
+                if q:
+                    sites.append((c.line, q))
         for ln, q in sorted(set(sites)):
             r.functions.add(fn.id)
             r.call_sites += 1
             r.inst({"fn": fn.id, "line": ln, "quotient_from": q}, False)
             r.violate(fn.id, "quotient-sign-test", f"the result of {q} is order-compared with zero at line {ln}: a quotient truncated toward zero says nothing about the sign "
                       "of a dividend smaller than the divisor (wrong rounding direction / negative components dropped)", rec["file"], ln)
-    r.notes.append(f"{nfn} cast/format/round functions scanned")
+    r.notes.append(f"{nfn} cast/format/numeric functions scanned; quotient-carrying parameters: {sum(len(v) for v in tainted.values())}")
     if nfn < 100:
-        r.missing_anchor(f"cast / format / round functions (found {nfn}, expected at least 100)")
+        r.missing_anchor(f"cast / format / numeric functions (found {nfn}, expected at least 100)")
     return r
 
 
